@@ -8,7 +8,7 @@ HIDDEN = re.compile(r' seg=\d+ si=\S+ pe=\S+ canon=\d rp=\S')
 def cfg_view(op, impl):
     """what cfg_driver.cpp prints for this operation, derived from the model's answer line"""
     t = op.split(' ')[0]
-    if t in ('probe', 'frompath', 'topath', 'rt', 'utf', 'cmp'): return None
+    if t in ('probe', 'frompath', 'topath', 'rt', 'utf', 'cmp', 'idnahyp'): return None
     s = HIDDEN.sub('', impl)
     s = re.sub(r' so=\d', '', s)
     s = re.sub(r'\bcp=\d ', '', s)
@@ -40,16 +40,26 @@ def make_amalgamation():
 
 def configs(tier, seed, runner, lines):
     """C18: every configuration's transcript must be byte-identical to the model's public view"""
-    cov = {}
-    viol = []
-    if not lines: return {'coverage': cov, 'violations': viol}
-    lean, lrc, lerr = run_ops(lean_driver(), '\n'.join(lines) + '\n')
-    expect = [cfg_view(lines[i], lean[i].partition(' ## ')[0]) for i in range(len(lines))]
     stds = ['c++11', 'c++14', 'c++17', 'c++20']
     if tier == 'thorough':
         cfgs = [(s, nd, o, am) for s in stds for nd in (0, 1) for o in ('-O0', '-O2') for am in (0, 1)]
     else:
         cfgs = [('c++11', 1, '-O2', 0), ('c++14', 0, '-O0', 0), ('c++17', 1, '-O2', 1), ('c++20', 0, '-O2', 0), ('c++11', 0, '-O0', 1), ('c++20', 1, '-O0', 1)]
+    return _configs(cfgs, lines)
+
+def cxx11(tier, seed, runner, lines):
+    """every property with correspondence streams: the main harness is a C++20 build (it needs generic lambdas
+    and char8_t); the project's DEFAULT language mode is C++11 (CMAKE_CXX_STANDARD 11), where tables are
+    pre-generated instead of constexpr and several helpers have other definitions. The same operation file is
+    therefore also run through the C++11 build of the plain driver and compared with the model."""
+    return _configs([('c++11', 0, '-O2', 0)] + ([('c++14', 1, '-O0', 0)] if tier == 'thorough' else []), lines)
+
+def _configs(cfgs, lines):
+    cov = {}
+    viol = []
+    if not lines: return {'coverage': cov, 'violations': viol}
+    lean, lrc, lerr = run_ops(lean_driver(), '\n'.join(lines) + '\n')
+    expect = [cfg_view(lines[i], lean[i].partition(' ## ')[0]) for i in range(len(lines))]
     key = sha_files(repo_sources() + [os.path.join(VERIF, 'harness', 'cfg_driver.cpp')] + [os.path.join(REPO, 'tools', 'amalgamate', f) for f in ('amalgamate.py', 'config-cpp.json', 'config-h.json', 'config-cpp.prologue')] + [os.path.join(REPO, 'tools', 'amalgamate.sh')])
     outdir = os.path.join(CACHE, 'c_' + key)
     os.makedirs(outdir, exist_ok=True)
